@@ -232,4 +232,19 @@ def importFromNameOk (nNames : Nat) (lastAlias stmt : Loc) : Bool := nNames == 1
 /-- `(l1, c1) < (l2, c2)` -/
 def posLt (l1 c1 l2 c2 : Int) : Bool := decide (l1 < l2) || (l1 == l2 && decide (c1 < c2))
 
+/-! ### `parse__match_cases`: undoing the one-blank indentation of the wrapper -/
+
+/-- CPython's positions of a fragment whose lines sit `k` lines down in the wrapper and whose lines listed in `ind`
+(fragment line numbers; the others are continuation lines of multi-line strings, kept verbatim) are indented by one blank -/
+def indentEmbed (k : Int) (ind : List Int) (p : Loc) : Loc :=
+  ⟨p.lineno + k, if ind.contains p.lineno then p.col + 1 else p.col,
+   p.endLineno + k, if ind.contains p.endLineno then p.endCol + 1 else p.endCol⟩
+
+/-- the final walk of `parsex.parse__match_cases` (`k = 2`): lines back up, and INDEPENDENTLY for start and end: one column
+less when the (new) line is one of the indented lines -/
+def undoIndent (k : Int) (ind : List Int) (p : Loc) : Loc :=
+  let ln := p.lineno - k
+  let eln := p.endLineno - k
+  ⟨ln, if ind.contains ln then p.col - 1 else p.col, eln, if ind.contains eln then p.endCol - 1 else p.endCol⟩
+
 end Pfst.ParseWrap
